@@ -133,6 +133,10 @@ func Load(c LoadConfig) (*Prog, error) {
 		if fn.Blocks == nil {
 			continue
 		}
+		// the body of a generic function as such is never run: its instantiations are analysed
+		if fn.TypeParams().Len() > 0 && len(fn.TypeArgs()) == 0 {
+			continue
+		}
 		p.funcs = append(p.funcs, fn)
 	}
 	sort.Slice(p.funcs, func(i, j int) bool {
